@@ -12,26 +12,34 @@ GEN = oc.GEN
 GEN_DEPS = ["GenHseq.v", "GenOptics.v", "GenShape.v"]
 TARGETS_CHECK = ["theories/Check/C04o.vo", "theories/Check/C04.vo"]
 TARGETS_PROP = ["theories/Properties/C04.vo"]
-SHARD = 300
+SHARD = 100     # cases per coqc; the shards are evaluated in parallel (set per tier in run_impl)
 PRELUDE = "Open Scope string_scope.\n"
 RULE = ("8 fixed corner shapes + 44 (quick) / 600 (thorough) random struct shapes + 4 fixed and 4 / 54 random homonym shapes generated as Go source from VERIF_SEED (as C03); per "
         "shape, built in generated typed Go source: up to 5 Join chains of depth 2-3 over struct-typed fields (plain and value-embedded), "
         "BiMap / Getter / Setter with the byte involution xor 0x5a on pointer-free fields, BiMapS/B/I/F on string / []byte / int / float "
-        "fields, ForShape2..9 on random type tuples incl. a repeated component (by type and by name), Iso and Morphism over 1-5 isos "
-        "with nil entries and repeats between two instances of the shape, and optics.NewLensM on small maps; every optic is exercised "
+        "fields between types of one width, BiMapI ACROSS widths (an int8/16/32-rooted field exposed as a wider integer type and a "
+        "wide field exposed as a narrower one, the values put drawn from the narrower type incl. negative ones and its corners; "
+        "BiMapF float32<->float64 is not generated), ForShape2..9 on random type tuples incl. a repeated component (by type and by "
+        "name), Iso and Morphism over 1-5 isos with nil entries and repeats between two instances of the shape, up to 2 Morphism "
+        "lists per shape in which an iso over a composed lens (BiMap, BiMapS/B/I/F incl. across widths, Getter, Setter) occurs twice "
+        "as the same value, adjacent and with nil / plain entries in between, and optics.NewLensM on small maps; every optic is exercised "
         "on arenas (guard, struct, guard) with typed random values: Get, Put, Get (Forward, Inverse for isos) with the byte diff of "
         "every structure after each step. A case is distinct by (shape layout, request) and non-trivial when some byte changed")
 TRUSTED = [
     "tools/go2coq modes hseq, optics, shape (go/parser AST -> shallow Gallina; shapeN.Put/Get in the state+poison monad)",
     "the shape generator and Go driver (tools/runner/props/optics_common.py, optics_c04gen.py, harness/optics)",
-    "modelled, not verified: conversions as functions on the byte representation (same-representation conversions are the identity); "
+    "modelled, not verified: conversions as functions on the byte representation (same-representation conversions are the identity; "
+    "BiMapI across widths: sign extension / truncation of the little-endian bytes, proved to be Go's signed integer conversion on "
+    "values - C04_sresize_is_conversion); "
     "a typed copy of a struct may or may not carry its padding bytes (they are compared neither way); Go maps as association lists",
 ]
 CLAIM = {
     "text": "Coq theorems over optics as syntax (Field | Join | BiMap | Getter | Setter) interpreted on byte arenas: Join of two lawful "
             "optics obeys GetPut/PutGet/PutPut and changes nothing outside the outer focus and, with a positional outer optic (a field "
             "lens or a Join chain of field lenses), nothing outside the inner focus (C04_join_frame, C04_chain_framed); BiMap under "
-            "g.f = id and f.g = id is lawful; Getter never writes; Setter writes exactly the converted value; per-arity theorems "
+            "g.f = id and f.g = id is lawful; BiMapI across widths (conversions by value, mutually inverse on the values of the narrower "
+            "type only) obeys PutGet for the values that fit the narrower type, GetPut where the field holds one, PutPut always, and "
+            "writes inside the field only (C04_bimapI_lawful_on, C04_bimapI_framed, from the generic C04_bimap_lawful_on); Getter never writes; Setter writes exactly the converted value; per-arity theorems "
             "(N=2..9) that the regenerated shapeN.Put is the component puts in the code's order, shapeN.Get the tuple of component gets, "
             "ForShapeN = ForProductN, and that with focused components on pairwise disjoint foci shapeN.Get after shapeN.Put returns "
             "the arguments and no byte outside the foci changes (C04_shapeN_nfold, from the generic C04_puts_nfold); a map lens touches "
@@ -58,8 +66,9 @@ CLAIM = {
                  "differential run of model and oracle on generated Go struct shapes",
 }
 ASSUMPTIONS = [
-    "conversion functions are total and pure; same-representation conversions (BiMapS/B/I/F between types with one underlying type) "
-    "are the identity on bytes",
+    "conversion functions are total and pure; same-representation conversions (BiMapS/B/I/F between types of one width rooted in "
+    "one builtin type) are the identity on bytes; conversions between signed integer types of different widths are sign extension / "
+    "truncation of little-endian bytes (amd64); float32 <-> float64 conversions are not modelled and not exercised",
     "a typed store through unsafe.Pointer writes exactly the bytes of the value (no GC/write-barrier effects)",
 ]
 
@@ -67,6 +76,8 @@ _prelude = oc.Prelude(globals())
 
 
 def run_impl(ctx, tier=None, count=None):
+    # every shard parses the definitions of all shapes of the run: small shards pay off in the quick tier only
+    globals()["SHARD"] = 100 if (tier or ctx.tier) == "quick" else 300
     return oc.run_cases(ctx, ID, tier, count)
 
 
@@ -77,7 +88,7 @@ def _cop(o, td):
     if k == "join":
         return "(CJoin %s %s)" % (_cop(o["a"], td), _cop(o["b"], td))
     kind = {"bimap": 0, "getter": 1, "setter": 2}[k]
-    return "(CConv %d%%N %s %d%%N)" % (kind, _cop(o["x"], td), o["code"])
+    return "(CConv %d%%N %s %d%%N %s%%nat)" % (kind, _cop(o["x"], td), o["code"], oc.cty(td[o["B"]]))
 
 
 def _path(p):
@@ -102,8 +113,8 @@ def _req(c):
             if i is None:
                 items.append("None")
             else:
-                items.append("(Some (mkI %s %s %s %s %s%%nat))" % (_cop(i["sa"], td), _path(i["sa"]["fpath"]), _cop(i["ta"], td),
-                                                                 _path(i["ta"]["fpath"]), oc.cty(td[i["sa"]["A"]])))
+                items.append("(Some (mkI %s %s %s %s))" % (_cop(i["sa"], td), _path(i["sa"]["fpath"]), _cop(i["ta"], td),
+                                                          _path(i["ta"]["fpath"])))
         return "(RMorph [%s])" % "; ".join(items)
     if cb == "mapkey":
         return "(RMapKey [%s] %s %s)" % ("; ".join("(%s, %s)" % (oc.cstr(k), vlib.zlit(v)) for k, v in r["init"]),
